@@ -249,8 +249,9 @@ def _run(ctx, pq):
     n_d = 200 if quick else 2000
     d_paths = []
     for i in range(n_d):
-        shape = rng.choice(["hive", "hive", "drill", "drill", "mixed", "malformed"])
-        depth = rng.choice([1, 1, 2, 3])
+        shape = rng.choice(["hive", "hive", "drill", "drill", "mixed", "malformed", "ragged"])
+        depth = rng.choice([1, 1, 2, 3]) if shape != "ragged" else rng.choice([2, 3])
+        ragged_hive = rng.random() < 0.5
         names = rng.sample(["a", "b", "c_1", "dir0", "Key"], depth)
         kinds = [rng.choice(KINDS + [None, None]) for _ in range(depth)]
         pools = []
@@ -277,13 +278,15 @@ def _run(ctx, pq):
             segs = []
             for nm, pool in zip(names, pools):
                 t = rng.choice(pool)
-                hv = shape == "hive" or (shape == "mixed" and rng.random() < 0.5)
+                hv = shape == "hive" or (shape == "mixed" and rng.random() < 0.5) or (shape == "ragged" and ragged_hive)
                 if shape == "malformed" and rng.random() < 0.3:
                     segs.append(nm + "=" + t + "=x")
                 else:
                     segs.append(nm + "=" + t if hv else t)
             if shape == "malformed" and rng.random() < 0.3:
                 segs = segs[:-1]
+            if shape == "ragged" and rng.random() < 0.5:        # directories of different depths: scheme 'other'
+                segs = segs[:rng.randrange(1, len(segs))]
             d = "/".join(segs)
             if d not in dirs:
                 dirs.append(d)
